@@ -381,6 +381,9 @@ func wrapsProxyErr(c *Ctx, v ssa.Value, depth int) bool {
 		return false
 	}
 	ci := describeCall(&call.Call)
+	if wrapped := wrapHelperOperand(&call.Call); wrapped != nil { // wrapError("…", err)
+		return isProxyErrSource(c, wrapped, depth-1)
+	}
 	if ci.Pkg != "fmt" || ci.Name != "Errorf" {
 		return false
 	}
@@ -530,4 +533,68 @@ func checkOwnErrorGuard(c *Ctx, r *Report) {
 			_ = n
 		}
 	}
+}
+
+
+// wrapHelperOperand: cc calls a repo helper func(..., err error, ...) error whose every return is
+// fmt.Errorf("…%w…", …, err, …) of its error parameter; returns the argument passed for that parameter.
+func wrapHelperOperand(cc *ssa.CallCommon) ssa.Value {
+	sc := cc.StaticCallee()
+	if sc == nil || sc.Blocks == nil || sc.Pkg == nil || !strings.HasPrefix(sc.Pkg.Pkg.Path(), modPath) {
+		return nil
+	}
+	if sc.Signature.Results().Len() != 1 || sc.Signature.Results().At(0).Type().String() != "error" {
+		return nil
+	}
+	idx := -1
+	for i, p := range sc.Params {
+		if p.Type().String() == "error" {
+			if idx >= 0 {
+				return nil
+			}
+			idx = i
+		}
+	}
+	if idx < 0 || idx >= len(cc.Args) {
+		return nil
+	}
+	rets := returnsOf(sc)
+	if len(rets) == 0 {
+		return nil
+	}
+	for _, ret := range rets {
+		call, ok := retResult(ret, 0).(*ssa.Call)
+		if !ok {
+			return nil
+		}
+		ci := describeCall(&call.Call)
+		if ci.Pkg != "fmt" || ci.Name != "Errorf" {
+			return nil
+		}
+		f, isK := constString(call.Call.Args[0])
+		if !isK || !strings.Contains(f, "%w") {
+			return nil
+		}
+		wraps := false
+		for _, op := range variadicElems(call.Call.Args[len(call.Call.Args)-1]) {
+			for {
+				if mi, ok := op.(*ssa.MakeInterface); ok {
+					op = mi.X
+					continue
+				}
+				if ch, ok := op.(*ssa.ChangeInterface); ok {
+					op = ch.X
+					continue
+				}
+				break
+			}
+			if op == ssa.Value(sc.Params[idx]) {
+				wraps = true
+			}
+		}
+		if !wraps {
+			return nil
+		}
+	}
+	return cc.Args[idx]
 }
